@@ -284,6 +284,27 @@ func (g *c18Gen) field(tableSize uint32) c18Field {
 		}
 		return f
 	}
+	if len(g.fields) > 0 && r.Chance(1, 8) {
+		// a sibling of a field sent earlier (or of a static-table entry) whose name+value octets are the same but split at another
+		// point ("x-user: id7" after "x-userid: 7"): a different field as far as HPACK is concerned
+		src := g.fields[r.Intn(len(g.fields))]
+		if r.Chance(1, 4) {
+			st := [][2]string{{"accept-encoding", "gzip, deflate"}, {"content-length", "0"}, {"cache-control", "no-cache"}, {"accept-charset", ""}}[r.Intn(4)]
+			src = c18Field{Name: st[0], Value: st[1]}
+		}
+		if len(src.Name) > 1 && src.Name[0] != ':' {
+			k := 1 + r.Intn(len(src.Name)-1)
+			name, tail := src.Name[:len(src.Name)-k], src.Name[len(src.Name)-k:]
+			{
+				g.kinds |= 1 << 18
+				sib := c18Field{Name: name, Value: tail + src.Value}
+				if len(g.fields) < 96 {
+					g.fields = append(g.fields, sib)
+				}
+				return sib
+			}
+		}
+	}
 	n := g.name()
 	f := c18Field{Name: n, Value: g.value(len(n), tableSize), Sensitive: r.Chance(1, 7)}
 	if len(g.fields) < 96 {
